@@ -51,3 +51,15 @@ def run(ctx, rep) -> None:
             tail += 1
             rep.violation(f'{t["id"]}: {t["patches_tail"]} PATCH request(s) in the tail window: the framework keeps writing', payload=t)
     rep.extra['traces_with_tail_writes'] = tail
+    # convergence with user transformations in play (conflicts carried forward, failing cycles): the last change is handled
+    from concurrent.futures import ProcessPoolExecutor
+    from vf import records
+    from vf.props import C08
+    lscs = [{'id': f'loop-{c}-{f}-{len(e)}', 'conflicts': c, 'fail_after_conflict': f, 'edits': e, 'end': 80}
+            for c in (0, 1, 2) for f in (0, 1) for e in ([10], [10, 11], [10, 25])]
+    with ProcessPoolExecutor(16) as ex:
+        lruns = list(ex.map(C08.loop_case, lscs))
+    lbad = records.judge('Rec_Patching', [{k: v for k, v in r.items() if k != 'case'} for r in lruns], rep=rep, name='Rec_Patching[loop]')
+    rep.evaluations += len(lruns); rep.traces += len(lruns)
+    for i, label in sorted(lbad.items()):
+        rep.violation(f'{label}: {lruns[i]["case"]} handled={lruns[i]["handled"]} tags={lruns[i]["tags"]}', payload=lruns[i])
